@@ -27,6 +27,11 @@ Definition same_set (a c : list nat) : bool :=
   (forallb (fun x => mem x c) a && forallb (fun x => mem x a) c)%bool.
 Definition roots_are (r : option (list desc)) (ids : list nat) : bool :=
   match r with Some l => same_set (map d_id l) ids | None => false end.
+Definition log_is (r : option (list desc * list nat)) (ids calls : list nat) : bool :=
+  match r with
+  | Some (l, c) => (same_set (map d_id l) ids && if list_eq_dec Nat.eq_dec c calls then true else false)%bool
+  | None => false
+  end.
 """
 
 
@@ -101,18 +106,22 @@ def _vm_goal(case, out):
         n, limit, start, lister, nf = int(toks.pop(0)), int(toks.pop(0)), int(toks.pop(0)), toks.pop(0), int(toks.pop(0))
         fs = _vm_filters(nf, toks)
         src = _vm_source(n, toks, lister)
-        call = "find_roots (fuel_for S %d) S %s (%d)%%Z (mkDesc %d [] None)" % (n, fs, limit, start)
+        if lister == "c":
+            return None  # caller-supplied FindPredecessors: checked by the runner only
+        call = "find_roots_log (fuel_for S %d) S %s (%d)%%Z (mkDesc %d [] None)" % (n, fs, limit, start)
         if out == "FUEL":
             return "let S := %s in %s = None" % (src, call)
         if not out.startswith("OK "):
             return None
-        ids = [] if out[3:] == "-" else [int(x) for x in out[3:].split(",")]
-        return "let S := %s in roots_are (%s) [%s] = true" % (src, call, "; ".join(map(str, ids)))
+        parts = out.split(" ")
+        ids = [] if parts[1] == "-" else [int(x) for x in parts[1].split(",")]
+        calls = [] if len(parts) < 3 or parts[2] == "-" else [int(x) for x in parts[2].split(",")]
+        return "let S := %s in log_is (%s) [%s] [%s] = true" % (src, call, "; ".join(map(str, ids)), "; ".join(map(str, calls)))
     if kind == "FP":
         n, x, lister, nf = int(toks.pop(0)), int(toks.pop(0)), toks.pop(0), int(toks.pop(0))
         fs = _vm_filters(nf, toks)
         src = _vm_source(n, toks, lister)
-        if not out.startswith("P"):
+        if not out.startswith("P") or lister == "c":
             return None
         ds = []
         for t in out.split(" ")[1:]:
